@@ -6,6 +6,7 @@ import Yaep.Model.Api
 import Yaep.Model.Descr
 import Yaep.Model.Earley2
 import Yaep.Model.DefectCodes
+import Yaep.Model.MakeParse
 /-!
 # The judge: compares the observations of the real library with the model
 
@@ -154,6 +155,93 @@ def parseSignature (o : Op) (tab : Array NodeRec) : String :=
     | _ => []
   s!"rc={kvInt p "rc"} amb={kvInt p "amb"} root={(kv p "root").getD "?"} se=[{"; ".intercalate ses}] trees={trees}"
 
+/-- a situation of the hook's set dump: `rule,dot,origin` -/
+def parseItemW (w : String) : Item :=
+  match w.splitOn "," with
+  | [r, d, o] => { rule := toNat r, dot := toNat d, origin := toNat o }
+  | _ => { rule := 1000000000, dot := 0, origin := 0 }
+
+/-- a structural hash of every node of an exported table (children precede parents): the
+packed forest up to the order of alternatives inside an ALT list and up to sharing -/
+def forestHashes (tab : Array NodeRec) : Array UInt64 := Id.run do
+  let mut h : Array UInt64 := Array.mkEmpty tab.size
+  for i in [0:tab.size] do
+    let v : UInt64 := match tab.getD i .bad with
+      | .nil => 11
+      | .err => 13
+      | .term c a => mixHash 17 (mixHash (hash c) (hash a))
+      | .anode n c ks => ks.foldl (fun acc k => mixHash acc (h.getD k 0)) (mixHash (hash n) (hash c))
+      | .alt as => ((as.map fun k => h.getD k 0).toArray.qsort (· < ·)).foldl mixHash 19
+      | .bad => 23
+    h := h.push v
+  return h
+
+/-- deep tie of `make_parse` (cost flag off): the step-for-step model (`Model/MakeParse.lean`) run
+on the parse list the hook dumped — situations in the order of the C set cores — must set the
+same ambiguity flag and build the same node graph, compared line by line with the export of
+the harness -/
+def judgeMakeParse (cid : String) (o : Op) (g : Grammar) (oneP : Bool) (amb : Int) (out : Out) : Out := Id.run do
+  let mut out := out
+  let setLines := o.get "set"
+  let implLines := ((o.get "node").map fun ws => " ".intercalate ("node" :: ws)) ++
+    ((o.get "root").map fun ws => " ".intercalate ("root" :: ws))
+  if setLines.isEmpty || (o.get "root").isEmpty || (o.first "pltoks").isNone then return out
+  if setLines.length > 400 then
+    return out.s cid s!"makeparse skipped sets={setLines.length}"
+  let sets : Array (Array Item) := (setLines.map fun ws => ((ws.drop 2).map parseItemW).toArray).toArray
+  let plToks : Array Int := (((o.first "pltoks").getD []).map toInt).toArray
+  let prop := if oneP then "C02" else "C03"
+  match MP.makeParse g sets plToks oneP 400000 with
+  | .ok r =>
+    let modelLines := MP.renderTable r.tab r.root
+    let ambM : Int := if r.amb then 1 else 0
+    out := out.v cid o.n prop "D" (ambM == amb) s!"make_parse model: ambiguity flag equal impl={amb} model={ambM}"
+    let exact := modelLines == implLines
+    -- the tie: the same packed forest (which alternatives exist at which place), up to the order
+    -- of alternatives and up to sharing; the line-by-line identity of the two exports (node
+    -- numbering, order inside ALT lists, sharing) and the allocation order are incidental to
+    -- every property and only counted (`S` lines)
+    let implTab := o.nodeTable
+    let implRoot := toNat (((o.first "root").getD ["0"]).headD "0")
+    let same := exact || ((forestHashes r.tab).getD r.root 1 == (forestHashes implTab).getD implRoot 2 && tableWF implTab)
+    let detail :=
+      if same then s!"nodes={r.tab.size} cells={r.heapSize}"
+      else
+        let k := ((modelLines.zip implLines).takeWhile fun (a, b) => a == b).length
+        s!"first difference at line {k}: model=[{modelLines.getD k "<end>"}] impl=[{implLines.getD k "<end>"}] model={modelLines} impl={implLines}"
+    out := out.v cid o.n prop "D" same s!"make_parse model: same packed forest {detail}"
+    if !exact then out := out.s cid s!"makeparse-export-differs op={o.n}"
+    -- the caller-side allocator saw every `parse_alloc` / `parse_free` of make_parse (sizes in
+    -- units of the first request, the NIL node; pointers are the fourth part of a node minus its tag)
+    let evA := (o.get "ev").filterMap fun ws => match ws with | "a" :: id :: sz :: _ => some (toNat id, toNat sz) | _ => none
+    let evF := (o.get "ev").filterMap fun ws => match ws with | "f" :: id :: _ => some (toNat id) | _ => none
+    match evA with
+    | (id0, unit) :: _ =>
+      let ptr := (unit - 8) / 3
+      let expA := r.allocs.map fun a => match a with
+        | .node => unit | .anode k => unit + ptr * k | .name b => b + 2
+      let gotA := evA.map (·.2)
+      let expF := (if r.nilUsed then [] else [id0]) ++ (if r.errUsed then [] else [id0 + 1])
+      let okF := (o.args.getD 1 "user") != "user" || evF == expF
+      -- the number of blocks requested and the unused NIL/ERROR node handed back are tied (C13:
+      -- every block of the parse comes from parse_alloc); their order is only counted
+      out := out.v cid o.n prop "D" (gotA.length == expA.length && okF)
+        s!"make_parse model: number of blocks requested impl={gotA.length} model={expA.length}, frees impl={evF} model={expF}"
+      if gotA != expA then out := out.s cid s!"makeparse-alloc-order-differs op={o.n}"
+    | [] => pure ()
+    -- the hook's event counters are part of the same transcription
+    match o.first "mpev" with
+    | some mp =>
+      if kvInt mp "reuse" != Int.ofNat r.reuse || kvInt mp "origins" != Int.ofNat r.origins then
+        out := out.s cid s!"makeparse-mpev-differ op={o.n} impl={mp} model=reuse={r.reuse},origins={r.origins}"
+    | none => pure ()
+    out := out.s cid s!"makeparse ran one={oneP} sets={sets.size} cells={r.heapSize} nodes={r.tab.size}"
+  | .noParse => out := out.s cid s!"makeparse op={o.n} model: no parse (first situation of the last set is not the axiom rule)"
+  | .outOfFuel => out := out.s cid s!"makeparse op={o.n} out of fuel"
+  | .undefinedBehaviour => out := out.s cid s!"makeparse op={o.n} model hit a step that is undefined in C"
+  | .cyclic => out := out.s cid s!"makeparse op={o.n} model graph cyclic"
+  return out
+
 def judgeParse (cfg : ParseCfg) (cid : String) (o : Op) (hs : HState) (out : Out) : HState × Out := Id.run do
   let mut out := out
   let ak := o.args.getD 0 "user"
@@ -190,6 +278,9 @@ def judgeParse (cfg : ParseCfg) (cid : String) (o : Op) (hs : HState) (out : Out
   let n := w.length
   let la := (clampLa hs.st.la).toNat
   let tab := o.nodeTable
+  -- deep tie of make_parse itself (cost flag off)
+  if hs.st.cost == 0 && rootS == "tree" then
+    out := judgeMakeParse cid o g (hs.st.one != 0) amb out
   -- the model's parse list; verdict from level min(la,1) (levels agree: `verdict_indep_of_la`)
   let mla := if la ≥ 2 then 1 else la
   let (err, pl) := if n ≤ cfg.maxSetToks then buildPL g mla w else (none, [])
